@@ -47,6 +47,11 @@ func runExtras(l *loaded, run *PropRun, prop, tier string) {
 		}
 	case "C01", "C06":
 		fragmentTagObligations(l, run)
+		codecReceiverObligations(l, run, "MarshalJSON")
+	case "C07":
+		codecReceiverObligations(l, run, "MarshalJSON")
+	case "C13":
+		codecReceiverObligations(l, run, "GobEncode")
 	case "C05", "C15":
 		pointableObligations(l, run)
 	case "C19", "C02":
@@ -56,11 +61,13 @@ func runExtras(l *loaded, run *PropRun, prop, tier string) {
 			"the dereferenced path item is a merge of the target and the sibling members")
 		if prop == "C19" {
 			fragmentTagObligations(l, run)
+			codecReceiverObligations(l, run, "MarshalJSON")
 		}
 	case "C04":
 		terminationWitness(run)
 	case "C14":
 		gobObligations(l, run)
+		codecReceiverObligations(l, run, "GobEncode")
 	case "C10":
 		for _, k := range expanderEntries {
 			if p, ok := rootParams[k]; ok {
@@ -166,6 +173,25 @@ func terminationWitness(run *PropRun) {
 // this type-level obligation states the dependency's precondition: for every kind that has a JSONLookup method, the method
 // is in the method set of the value type.
 func pointableObligations(l *loaded, run *PropRun) {
+	valueMethodObligations(l, run, "JSONLookup", "pointable",
+		"values held in maps and slices are met by jsonpointer as JSONPointable",
+		"a value held by value (map or slice element, struct member) no longer implements jsonpointer.JSONPointable; pointers through it fall back to the reflective struct lookup, which knows neither extensions nor unknown keywords nor $ref")
+}
+
+// codecReceiverObligations: encoding/json and encoding/gob find a custom encoder of a value that is not addressable (a map
+// element, a struct member encoded by value, an interface payload) only if the method is in the method set of the value
+// type. Every kind that has a MarshalJSON (GobEncode) method must have it there.
+func codecReceiverObligations(l *loaded, run *PropRun, method string) {
+	prefix := "marshalable"
+	if method == "GobEncode" {
+		prefix = "gob-encodable"
+	}
+	valueMethodObligations(l, run, method, prefix,
+		"values that are not addressable (map elements, members encoded by value) are encoded by the kind's own "+method,
+		"a value that is not addressable is encoded with the default struct encoding instead of the kind's own "+method)
+}
+
+func valueMethodObligations(l *loaded, run *PropRun, method, prefix, why, broken string) {
 	scope := l.pkg.Types.Scope()
 	names := scope.Names()
 	sort.Strings(names)
@@ -176,26 +202,26 @@ func pointableObligations(l *loaded, run *PropRun) {
 			continue
 		}
 		t := tn.Type()
-		pm := types.NewMethodSet(types.NewPointer(t)).Lookup(l.pkg.Types, "JSONLookup")
+		pm := types.NewMethodSet(types.NewPointer(t)).Lookup(l.pkg.Types, method)
 		if pm == nil {
 			continue
 		}
 		n++
-		vm := types.NewMethodSet(t).Lookup(l.pkg.Types, "JSONLookup")
-		o := &Obligation{Name: "pointable/" + name, Kind: "frame", Props: []string{run.Prop}, Solver: "go/types", Expect: "unsat",
-			Src: "JSONLookup of " + name + " is in the method set of the value type: values held in maps and slices are met by jsonpointer as JSONPointable"}
+		vm := types.NewMethodSet(t).Lookup(l.pkg.Types, method)
+		o := &Obligation{Name: prefix + "/" + name, Kind: "frame", Props: []string{run.Prop}, Solver: "go/types", Expect: "unsat",
+			Src: method + " of " + name + " is in the method set of the value type: " + why}
 		if vm != nil {
 			o.Status = "proved"
 		} else {
 			o.Status = "failed"
-			o.Model = "JSONLookup has a pointer receiver: a " + name + " held by value (map or slice element, struct member) no longer implements jsonpointer.JSONPointable; pointers through it fall back to the reflective struct lookup, which knows neither extensions nor unknown keywords nor $ref"
+			o.Model = method + " of " + name + " has a pointer receiver: " + broken
 			o.replayNote = "type-level obligation (go/types method sets of the working tree)"
 		}
 		run.Extra = append(run.Extra, o)
 	}
 	if n == 0 {
-		run.Extra = append(run.Extra, &Obligation{Name: "pointable/none", Kind: "frame", Props: []string{run.Prop}, Solver: "go/types", Expect: "unsat", Status: "failed",
-			Src: "some kind has a JSONLookup method", Model: "no type of the package has a JSONLookup method any more: the obligation no longer binds"})
+		run.Extra = append(run.Extra, &Obligation{Name: prefix + "/none", Kind: "frame", Props: []string{run.Prop}, Solver: "go/types", Expect: "unsat", Status: "failed",
+			Src: "some kind has a " + method + " method", Model: "no type of the package has a " + method + " method any more: the obligation no longer binds"})
 	}
 }
 
